@@ -2,6 +2,7 @@ from __future__ import annotations
 
 import copy
 import inspect
+import os
 from typing import Any
 
 import torch
@@ -93,9 +94,10 @@ class Optimizer(Identifiable, Runnable):
                 and self._epoch % self.checkpoint_frequency == 0
             ):
                 if self.checkpoint_all:
-                    checkpoint_file = self.checkpoint.replace(
-                        ".json", f"-{self._epoch}.json"
-                    )
+                    # one file per epoch, whatever the extension of the checkpoint
+                    # name (a name without ".json" used to be overwritten in place)
+                    root, ext = os.path.splitext(self.checkpoint)
+                    checkpoint_file = f"{root}-{self._epoch}{ext}"
                     self.save_full_state(checkpoint_file, overwrite=True)
                 else:
                     self.save_full_state(self.checkpoint)
@@ -173,9 +175,10 @@ class Optimizer(Identifiable, Runnable):
                 and self._epoch % self.checkpoint_frequency == 0
             ):
                 if self.checkpoint_all:
-                    checkpoint_file = self.checkpoint.replace(
-                        ".json", f"-{self._epoch}.json"
-                    )
+                    # one file per epoch, whatever the extension of the checkpoint
+                    # name (a name without ".json" used to be overwritten in place)
+                    root, ext = os.path.splitext(self.checkpoint)
+                    checkpoint_file = f"{root}-{self._epoch}{ext}"
                     self.save_full_state(checkpoint_file, overwrite=True)
                 else:
                     self.save_full_state(self.checkpoint)
